@@ -91,9 +91,31 @@ def gen_many(rng):
     return {'pre_isa': [], 'pre_cli': [], 'before': [], 'body': body, 'kinds': ['many-symbols-on-one-line']}
 
 
+def gen_valueless(rng):
+    """symbols WITHOUT a value (the optional value left out, written as null, or written as an empty text; `-D NAME`,
+    `#define NAME`): every whole-word occurrence is replaced by nothing"""
+    names = rng.sample(['PAD', 'NOTHING', 'EMPTYSYM'], rng.randint(1, 2))
+    forms, pre_isa, pre_cli, body = {}, [], [], []
+    for n in names:
+        how = rng.choice(['isa-omit', 'isa-null', 'isa-empty', 'cli-bare', 'define'])
+        forms[n] = how
+        if how.startswith('isa'):
+            pre_isa.append([n, ''])
+        elif how == 'cli-bare':
+            pre_cli.append([n, ''])
+        else:
+            body.append(('define', n, ''))
+    for _ in range(rng.randint(1, 3)):
+        n = rng.choice(names)
+        body.append(('line', rng.choice([f'.byte {n} 9', f'.byte 1, {n} 2', f'ldw {n} 7', f'.2byte 5 {n}', f'.byte 3 {n}, 4'])))
+    return {'pre_isa': pre_isa, 'pre_cli': pre_cli, 'before': [], 'body': body, 'kinds': ['symbol-without-value'], 'forms': forms}
+
+
 def gen_case(rng, tier):
     if rng.random() < 0.05:
         return gen_many(rng)
+    if rng.random() < 0.06:
+        return gen_valueless(rng)
     if rng.random() < 0.12:
         return gen_quoted(rng)
     if rng.random() < 0.3:
@@ -199,9 +221,18 @@ def to_model(case):
 
 def to_impl(case):
     isa = dict(ISA)
+    forms = case.get('forms', {})
     if case['pre_isa']:
-        isa = dict(ISA, predefined={'symbols': [{'name': n, 'value': t} for n, t in case['pre_isa']]})
-    a = impl.compile_case(isa, {'main.asm': asm_with_symbols(case)}, defines=[f'{n}={t}' for n, t in case['pre_cli']])
+        def entry(n, t):
+            how = forms.get(n)
+            if how == 'isa-omit':
+                return {'name': n}
+            if how == 'isa-null':
+                return {'name': n, 'value': None}
+            return {'name': n, 'value': t}
+        isa = dict(ISA, predefined={'symbols': [entry(n, t) for n, t in case['pre_isa']]})
+    a = impl.compile_case(isa, {'main.asm': asm_with_symbols(case)},
+                          defines=[n if forms.get(n) == 'cli-bare' else f'{n}={t}' for n, t in case['pre_cli']])
     # function-level probe: the real Preprocessor on the same definition / line sequence (text in, text out)
     m = to_model(case)
     b = probes.call('subst_program', m['pre'], m['items'])
